@@ -63,7 +63,12 @@ class Range:
         end = (self.next >= self.stop) if self.step >= 0 else (self.next <= self.stop)
         if end:
             return nothing()
-        return some((self.next, Range(self.next + self.step, self.stop, self.step)))
+        new_next = self.next + self.step
+        # If `next + step` wrapped around the 64-bit range, the iterator is exhausted
+        wrapped = (new_next < self.next) if self.step >= 0 else (new_next > self.next)
+        if wrapped:
+            new_next = self.stop
+        return some((self.next, Range(new_next, self.stop, self.step)))
 
 
 @guppy
